@@ -194,6 +194,28 @@ OPTCOND = dict(
 )
 
 
+def _render_scope(field, exp, got, info):
+    """This stage owns WHAT an element shows when the specification and the library agree that a line / an option group
+    is due: text, tags, order and Disabled flags - after failed lines, after restores, in hand-written scripts."""
+    return (field == "out" and isinstance(exp, dict) and isinstance(got, dict) and exp.get("k") == got.get("k")
+            and exp.get("k") in ("line", "opts"))
+
+
+# what a line shows depends on that line only: not on the line that failed before it (text already rendered when an inline
+# expression fails), not on the state the runner was restored from
+RENDERHIST = dict(
+    sig="renderhist", scope=_render_scope, merge=True,
+    cs=[dict(family="faults", n=(80, 800), paths=(3, 5), calls=45,
+             label="YarnTrace: lines and options shown after lines whose inline expressions failed"),
+        dict(family="optcond", n=(40, 300), paths=(3, 5), calls=40, mode="snap",
+             label="YarnTrace: conditional option groups shown after Snapshot / RestoreAt (three runners)")],
+    scripts=dict(paths=(4, 20), calls=80),
+    rule="faulty programs (a line or option whose inline expression fails after some of its text was rendered, then further lines), "
+         "hub nodes with conditional options presented after RestoreAt, hand-written scripts as written: random walks trace-validated; "
+         "judged: text, tags, order and Disabled of every line / option group the specification and the library both present",
+)
+
+
 def run(ctx):
     if ctx.replay:
         return _run_replay(ctx)
@@ -305,6 +327,7 @@ def run(ctx):
     wide_display(ctx)
     import core_common as cc
     cc.run_core_check(ctx, OPTCOND)
+    cc.run_core_check(ctx, RENDERHIST)
     ctx.assumptions += [
         "the .g4 grammars define 'syntactically valid'; lines the automaton classifies invalid/notline/open are not judged "
         "(syntax errors belong to C05; 'open' = text glued to a #tag, blanks at the very start of a line (indentation), "
